@@ -360,6 +360,22 @@ fn test_copy_digits() {
     assert_eq!(copy_digits_str("42.00", 4, 2).unwrap(), "4200");
 }
 
+/// Convert a float that was already multiplied by `10^scale` into a decimal
+///
+/// The fractional part is truncated. Non-finite values and values that require
+/// more digits than `precision` are rejected.
+pub fn scaled_float_to_decimal128(val: f64, precision: u8) -> Result<i128> {
+    if !val.is_finite() {
+        fail!("Invalid decimal: cannot convert non-finite float");
+    }
+    let val = val as i128;
+    let limit = 10_u128.checked_pow(precision as u32);
+    if limit.is_some_and(|limit| val.unsigned_abs() >= limit) {
+        fail!("Invalid decimal: not enough precision");
+    }
+    Ok(val)
+}
+
 pub fn format_decimal(buffer: &mut [u8], val: i128, scale: i8) -> &str {
     fn write_val(buffer: &mut [u8], val: i128) -> usize {
         use std::io::Write;
